@@ -212,21 +212,21 @@ func Convert(value any, typ reflect.Type) (any, error) { //nolint: gocyclo
 		case reflect.Array, reflect.Slice:
 			result := reflect.MakeSlice(typ, 0, rv.Len())
 			for i := range rv.Len() {
-				item, err := Convert(rv.Index(i).Interface(), typ.Elem())
+				item, err := convertElement(rv.Index(i).Interface(), typ.Elem())
 				if err != nil {
 					return nil, err
 				}
-				result = reflect.Append(result, reflect.ValueOf(item))
+				result = reflect.Append(result, item)
 			}
 			return result.Interface(), nil
 		case reflect.Map:
 			result := reflect.MakeSlice(typ, 0, rv.Len())
 			for _, key := range SortedMapKeys(rv) {
-				item, err := Convert(rv.MapIndex(key).Interface(), typ.Elem())
+				item, err := convertElement(rv.MapIndex(key).Interface(), typ.Elem())
 				if err != nil {
 					return nil, err
 				}
-				result = reflect.Append(result, reflect.ValueOf(item))
+				result = reflect.Append(result, item)
 			}
 			return result.Interface(), nil
 		}
@@ -241,6 +241,20 @@ func Convert(value any, typ reflect.Type) (any, error) { //nolint: gocyclo
 		}
 	}
 	return nil, conversionError("", value, typ)
+}
+
+// convertElement converts an element of an array, slice or map that Convert turns into a slice.
+// A nil element stays nil when the slice's element type is an interface, as it does when a
+// []any is passed through unchanged.
+func convertElement(item any, et reflect.Type) (reflect.Value, error) {
+	if et.Kind() == reflect.Interface && ToLiquid(item) == nil {
+		return reflect.Zero(et), nil
+	}
+	converted, err := Convert(item, et)
+	if err != nil {
+		return reflect.Value{}, err
+	}
+	return reflect.ValueOf(converted), nil
 }
 
 // MustConvert is like Convert, but panics if conversion fails.
